@@ -29,6 +29,9 @@ type warmCase struct {
 	Period uint32  `json:"period_s"`
 	Cold   uint32  `json:"cold_factor"` // 0 = default (3)
 	Hist   string  `json:"demand"`      // saturate | saturate-idle-saturate | sparse | bursty
+	// Throttle: the warm-up calculator drives a throttling checker (no queueing) instead of the reject checker: the
+	// envelope is the same, observed through the paced admissions
+	Throttle bool `json:"throttling_checker,omitempty"`
 	Note   string  `json:"note,omitempty"`
 }
 
@@ -66,7 +69,11 @@ func runWarm(idx int, c *warmCase) {
 		}
 		clk.SetMs(clk.Ms() - clk.Ms()%1000 + 1000)
 	}
-	if _, err := flow.LoadRulesOfResource(res, []*flow.Rule{{ID: res, Resource: res, TokenCalculateStrategy: flow.WarmUp, ControlBehavior: flow.Reject,
+	cbh := flow.Reject
+	if c.Throttle {
+		cbh = flow.Throttling
+	}
+	if _, err := flow.LoadRulesOfResource(res, []*flow.Rule{{ID: res, Resource: res, TokenCalculateStrategy: flow.WarmUp, ControlBehavior: cbh,
 		Threshold: c.T, WarmUpPeriodSec: c.Period, WarmUpColdFactor: c.Cold}}); err != nil {
 		run.Violation("C11/warmup:load-error", err.Error(), c)
 		return
@@ -200,7 +207,7 @@ func runWarm(idx int, c *warmCase) {
 		tot += v
 	}
 	run.Count("warmup_admissions", int64(tot))
-	run.Distinct(vk.Hash(c.T, c.Period, c.Cold, c.Hist))
+	run.Distinct(vk.Hash(c.T, c.Period, c.Cold, c.Hist, c.Throttle))
 }
 
 // ------------------------------------------------------------------ memory adaptive
@@ -485,6 +492,12 @@ func main() {
 			Hist: vk.PickS(rng, "saturate", "saturate-idle-saturate", "sparse", "bursty", "flood-then-rule")}
 		if c.Hist == "flood-then-rule" && c.T > 100 {
 			c.T = 100
+		}
+		if rng.Intn(5) == 0 && c.T >= 1 {
+			c.Throttle = true
+			if c.T > 10 {
+				c.T = 10 // (the demand arrives in 10-20 ms ticks: a paced rate above 50/s could not be observed)
+			}
 		}
 		run.Begin(i, c)
 		if i < 3 {
